@@ -19,6 +19,16 @@ func flattenCase(g *Gen, o flatOpts, plus bool, repeats, permutes int, faults bo
 	// KeepNames applies to single-document bundles: decided first, so that half of them use plain names only
 	keep := !o.Expand && g.p(0.2)
 	bo := BundleOpts{Plus: plus, AnonOK: anon, SharedOK: anon && !o.RemoveUnused, MaxAux: 3}
+	if !keep && g.p(0.3) {
+		bo.Scenario = g.pick([]string{"collide-pointer", "collide-many", "unused-chain"})
+		if !anon && bo.Scenario == "collide-pointer" {
+			bo.Scenario = "collide-many"
+		}
+		if g.p(0.6) {
+			// focus: no other anonymous pointer competes with the planted shape
+			bo.AnonOK, bo.SharedOK = false, false
+		}
+	}
 	if keep {
 		bo.MaxAux = 0
 		bo.Plain = g.p(0.5)
